@@ -27,7 +27,7 @@ SCENARIO_TIMEOUT = 240
 PROBES = ["pred_chunk_lacks_fold", "one_row_last_chunk", "spectrum_split_across_conf_chunks",
           "spectrum_within_one_conf_chunk", "subsampled", "rowgroup_inside_chunk", "spill_files>=2",
           "switch_in_get_rows", "switch_in_save_chunks", "parquet", "workers>=8", "dedup_off", "rollup_off",
-          "multi_file", "order_sensitive_learner", "sklearn_learner", "merge_chunk_small", "listing_permuted"]
+          "multi_file", "order_sensitive_learner", "sklearn_learner", "merge_chunk_small", "protein_level"]
 RULE = (
     "Each scenario = one seeded tie-free data set + configuration (learner, folds, seeds, rollup/decoy/dedup "
     "switches) executed as reference (text, knobs > file, 1 worker, no threads) and as perturbed execution "
@@ -100,7 +100,10 @@ def make_scenario(seed):
         "sched": world.gen_sched(rng, workers, est_steps=6000),
         "glob_seed": rng.getrandbits(16),
     }
-    return {"property": PROPERTY, "seed": seed, "data": dp, "cfg": cfg, "pert": pert}
+    scn = {"property": PROPERTY, "seed": seed, "data": dp, "cfg": cfg, "pert": pert}
+    if rng.random() < 0.25 and cfg["conf"]["rollup"]:
+        scn["fasta_seed"] = rng.getrandbits(16)  # protein-level results as well
+    return scn
 
 
 def scenarios(tier, batch_seed):
@@ -224,6 +227,13 @@ def run_scenario(scn, workdir):
     if P.has_feature_ties(tables):
         return uninf("generated features contain an exact tie")
 
+    if scn.get("fasta_seed") is not None:
+        import os
+
+        fa = os.path.join(workdir, "db.fasta")
+        datagen.write_fasta(fa, P.fasta_for_tables(tables, scn["fasta_seed"]))
+        cfg["fasta_path"] = fa
+        cfg["fasta_kw"] = {"missed_cleavages": 0}
     ref = P.run_pipeline(tables, cfg, workdir, "ref", fmt="pin", sched_desc={"mode": "fifo"},
                          knobs=world.big_knobs(), glob_seed=None)
     cfg2 = dict(cfg)
@@ -252,7 +262,7 @@ def run_scenario(scn, workdir):
         "order_sensitive_learner": int(cfg["learner"] == "olda"),
         "sklearn_learner": int(cfg["learner"] in ("svc", "perc")),
         "merge_chunk_small": int(kn.get("MERGE_SORT_CHUNK_SIZE", 10**9) < 10),
-        "listing_permuted": int(got.fs.glob_multi > 0),
+        "protein_level": int(scn.get("fasta_seed") is not None),
     }
     rg = pert.get("row_group")
     if pert["format"] == "parquet" and rg:
@@ -384,6 +394,8 @@ def shrink_candidates(scn):
         c = clone(scn); c["cfg"]["conf"]["dedup"] = True; yield c
     if cfg["conf"].get("rollup", True):
         c = clone(scn); c["cfg"]["conf"]["rollup"] = False; yield c
+    if scn.get("fasta_seed") is not None:
+        c = clone(scn); c["fasta_seed"] = None; yield c
     if dp["n_files"] > 1:
         c = clone(scn); c["data"]["n_files"] = dp["n_files"] - 1; yield c
     if cfg.get("subset_max_train") is not None:
